@@ -252,7 +252,11 @@ GUARD = "copia_verif"
 
 def build_harness(profiles=("release", "checked")):
     shutil.copy(os.path.join(REPO, "Cargo.lock"), os.path.join(HARNESS_DIR, "Cargo.lock"))
-    env = dict(ENV, RUSTFLAGS="--cfg %s" % GUARD, CARGO_TARGET_DIR=HARNESS_TARGET)
+    toml = open(os.path.join(HARNESS_DIR, "Cargo.toml.in")).read().replace("@REPO@", REPO)
+    tp = os.path.join(HARNESS_DIR, "Cargo.toml")
+    if not os.path.exists(tp) or open(tp).read() != toml:
+        open(tp, "w").write(toml)
+    env = dict(ENV, RUSTFLAGS="--cfg %s" % GUARD, CARGO_TARGET_DIR=HARNESS_TARGET, VERIF_REPO=REPO)
     for prof in profiles:
         rc, out = sh(["cargo", "build", "--offline", "--profile", prof], cwd=HARNESS_DIR, env=env, timeout=3000)
         if rc != 0:
